@@ -203,10 +203,22 @@ class FixedMarginBusiness(Sector):
                              '%0.3f * %s' % (wage_share, market_sup_good))
             self.SetEquationRightHandSide('PROF', '%0.3f * %s' % (self.ProfitMargin, market_sup_good))
         for s in self.Parent.SectorList:
+            if isinstance(s, FixedMarginBusiness):
+                # Businesses pay dividends (and own a 'DIV' variable once they do); they are never
+                # the recipient.
+                continue
             if 'DIV' in s.EquationBlock.Equations:
                 Logger('Adding dividend flow', priority=5)
                 self.AddCashFlow('-DIV', 'PROF', 'Dividends paid', is_income=False)
-                s.AddCashFlow('DIV', self.GetVariableName('PROF'), 'Dividends received', is_income=True)
+                already_booked = any((not t.IsBlob) and t.Term == 'DIV'
+                                     for t in s.EquationBlock['F'].TermList)
+                if already_booked:
+                    # Another business already pays dividends to this sector; the inflow is booked
+                    # once, so add this business's profits to the amount received.
+                    s.SetEquationRightHandSide('DIV', s.EquationBlock['DIV'].RHS() + ' + ' +
+                                               self.GetVariableName('PROF'))
+                else:
+                    s.AddCashFlow('DIV', self.GetVariableName('PROF'), 'Dividends received', is_income=True)
                 break
 
 
